@@ -266,6 +266,12 @@ EXTRA = {
             "Also decides that a block found degenerate at one k-point is rotated only there."),
     "C05": ("transitive read sets of cached properties against the state rewritten by the re-indexing methods",
             "Also decides that every cached property of Rvectors that depends on re-indexed state is in the invalidation list."),
+    "C07": ("matrix-chain comparison of the vectorised k-point map; symbolic evaluation of the fold order of product() on a two-letter word",
+            "Also decides that product([A, B]) is A·B."),
+    "C08": ("every-path (unconditional) declaration rule; calculator ↔ Formula declaration agreement",
+            "Also decides that parities are declared for every configuration of a formula object and that a calculator and its Formula class do not contradict each other."),
+    "C26": ("no re-derivation call after the affine mix in interpolate()",
+            "Also decides that nothing overwrites the mixed matrices from settings copied from system0."),
     "C12": ("dict-typestate of the ray.init options (store of the merged runtime_env → no rewriting statement on any path to ray.init), "
             "no positional use of the ray.wait result",
             "Also decides that the workers get the runtime_env merged by get_ray_runtime_env."),
